@@ -8,7 +8,7 @@ TARGETS = {
 PROPS = {
     "C18": dict(
         targets=["c18_schur", "c18_cpr", "c18_defl"],
-        shard_mult={"quick": 8},
+        shard_mult={"quick": 8, "thorough": 6},
         level="exploration",
         rule="tape-decoded saddle-point systems K=[Kuu Kup;Kpu Kpp] (Kuu SPD M-matrix on path/tree/band/grid graphs, nu<=20, np<=10; Kpu = Kup^T with Kpp negative definite, "
              "Kpu = -Kup^T with Kpp SPD, independent / perturbed Kpu with a diagonal lift that makes S and S^ strictly diagonally dominant; no coupling 1/8) under every pmask form "
